@@ -3,6 +3,7 @@
 Re-runs the generation drivers of C03/C04 (hostile tapes), C05 (dispatch), C07 (event reuse histories), C10
 (post-generation operations) and C14 (gA sampler) in the ASan+UBSan build with libstdc++ assertions."""
 import json
+import re
 import os
 import sys
 import tempfile
@@ -173,6 +174,46 @@ def main():
             events += n
             drivers[name + "(debug switches on)"] = info
 
+    # ---- (5) valgrind memcheck on the plain build: what red-zone tools cannot see - reads of uninitialised bytes, e.g. an index of -1
+    #          into a table that is a member of a larger object lands in the padding before it (inside the object, nothing for ASan)
+    vlines = [l for l in lines if l.startswith("B ")]
+    vd = [l for l in lines if l.startswith("D ") and "-999" not in l]
+    vlines += vd[:: max(1, len(vd) // (60 if quick else 600))]
+    vexe = build.harness("plain", "gen_monitor", ["gen_monitor.cc"], extra_flags="-rdynamic", libs="-ldl")
+    vspec = tempfile.NamedTemporaryFile("w", suffix=".spec", delete=False, dir=build.variant_dir("plain"))
+    vspec.write("\n".join(vlines) + "\n")
+    vspec.close()
+    vsh = NCPU * 2
+
+    def vg(shard):
+        cmd = ["valgrind", "-q", "--error-exitcode=99", "--track-origins=no", "--errors-for-leak-kinds=none", "--leak-check=no",
+               vexe, vspec.name, str(chk.seed), "6" if quick else "40", "2", "1", str(shard), str(vsh), "0"]
+        return (shard,) + run(cmd, timeout=7200, env=build.lib_env("plain", {"BXDECAY0_DBD_GA_DATA_DIR": gadir}))
+
+    vevents = 0
+    vok = 0
+    for shard, rc, out, err in pmap(vg, list(range(vsh)), jobs=NCPU):
+        for ln in out.splitlines():
+            if ln.startswith("{") and '"events"' in ln:
+                try:
+                    vevents += json.loads(ln).get("events", 0)
+                except ValueError:
+                    pass
+        if rc == 0:
+            vok += 1
+            continue
+        if rc is None:
+            chk.inconclusive_("valgrind shard %d: watchdog fired" % shard)
+            continue
+        m = re.search(r"==\d+== ([A-Z][^\n]*)\n==\d+==    at 0x[0-9A-F]+: ([^\n(]+)", err)
+        fr = re.findall(r"==\d+==    (?:at|by) 0x[0-9A-F]+: (bxdecay0::[\w:~]+)", err)
+        key = "memcheck:%s|%s" % ((m.group(1).strip() if m else "error")[:60], "|".join(fr[:2]) if fr else "?")
+        chk.violation(key, "valgrind memcheck (plain build, shard %d): %s" % (shard, err[:1200]), {"stderr": err[:6000], "cmd": "valgrind %s %s %d ... %d %d" % (vexe, "<spec>", chk.seed, shard, vsh)})
+    os.unlink(vspec.name)
+    events += vevents
+    drivers["gen_monitor(valgrind memcheck, plain build)"] = {"configurations": len(vlines), "events": vevents, "clean_processes": vok}
+    chk.require(vevents >= 2000, "valgrind pass generated only %d events" % vevents)
+
     chk.require(active, "sanitizer runtime not active")
     chk.require(events >= 10000, "too few events generated under the sanitizers (%d)" % events)
     chk.coverage.update({
@@ -183,7 +224,8 @@ def main():
                 "configurations incl. windows reaching the end of the 1-keV tables, event-reuse histories, post-generation operations, "
                 "gA sampler; requests that must be refused (windows above the range, beyond the tables, inverted, one-sided); a pass with every debug/trace switch on; "
                 "decay0_divdif is interposed (harness/tablewrap.h) so that its two look-up tables are exact-size heap copies - an index of -1 or N "
-                "into BJ69::plog69 lands in padding ASan does not poison; every aborted process is one report keyed kind|frame0|frame1; distinct = distinct (configuration, branch signature)",
+                "into BJ69::plog69 lands in padding ASan does not poison; a valgrind memcheck pass on the plain build (uninitialised reads: an index of -1 into a "
+                "member table lands in the object's own padding); every aborted process is one report keyed kind|frame0|frame1; distinct = distinct (configuration, branch signature)",
         "samples": [{"driver": k, **v} for k, v in drivers.items()],
         "sanitizer_selftest": "use-after-free, in-capacity vector index and signed overflow canaries all fired" if active else "FAILED",
         "drivers": drivers,
